@@ -540,3 +540,27 @@ pub fn read_universe<DB: DatabaseRef>(
     }
     Ok(out)
 }
+
+/// The same through the `Database` (`&mut`) interface, which is what the EVM uses. revm's
+/// `State::storage_ref` (the `&self` flavour) falls through to the backing database for an account
+/// that was destroyed in the cache, whereas `State::storage` returns zero; the latter is the
+/// reference semantics.
+pub fn read_universe_mut<DB: revm::Database>(
+    db: &mut DB,
+    addrs: &[Address],
+    slots: &[U256],
+) -> Result<Vec<(Option<revm_state::AccountInfo>, Vec<U256>)>, DB::Error> {
+    let mut out = Vec::new();
+    for a in addrs {
+        let info = db.basic(*a)?.map(|mut i| {
+            i.code = None;
+            i
+        });
+        let mut vs = Vec::new();
+        for s in slots {
+            vs.push(db.storage(*a, *s)?);
+        }
+        out.push((info, vs));
+    }
+    Ok(out)
+}
